@@ -3,7 +3,8 @@ import re
 
 PROPS = {
     "C12": {
-        "modules": ["Ark.Props.C12"],
+        "modules": ["Ark.Props.C12", "Ark.Props.C04c", "Ark.Props.C04d"],
+        "gen_from": "C16",
         "crate": "harness2",
         "rule": "one op line per subgroup test / cofactor clearing / cofactor-inverse / sampling call on a point of the WHOLE curve; distinct = distinct op line; non-trivial = non-identity point",
         "exhaustive": ["every point of five toy curves with cofactors 4, 6, 8 (SW and TE)"],
@@ -26,18 +27,19 @@ PROPS = {
         "assumptions": ["a quadratic extension over a base without sqrt precomputation (Fp12 over Fp6 3-over-2) has no square-root algorithm: outside the quantifier (verdict note)"],
     },
     "C04": {
-        "modules": ["Ark.Props.C04a", "Ark.Props.C04b"],
+        "modules": ["Ark.Props.C04a", "Ark.Props.C04b", "Ark.Props.C04c", "Ark.Props.C04d"],
+        "gen_from": "C16",
         "rule": "one op line per scalar-multiplication call (algorithm, curve, point, scalar, window/table parameters); distinct = distinct op line; non-trivial = scalar outside {0,1} and non-identity point",
         "exhaustive": ["all points x all k in 0..2#E+1 on seven toy curves over F_13 for the double-and-add and scalar paths"],
         "partial": [],
         "assumptions": ["GLV paths are judged on points of the order-r subgroup (the Projective type's invariant); curve crates' GLV parameters are C16"],
     },
     "C09": {
-        "modules": ["Ark.Props.C09"],
+        "modules": ["Ark.Props.C09", "Ark.Props.C09b"],
         "rule": "one op line per (type, mode, value) round trip or uniqueness probe; distinct = distinct op line; non-trivial = value outside {0,1}",
         "exhaustive": ["every byte string of the serialized size for the toy fields and toy curves"],
         "partial": [],
-        "partial": ["compressed point round trip over the executable prime-field dictionary takes correctness of the square root (SqrtOK; Tonelli-Shanks is proved in C11 over Mathlib fields) and, for twisted Edwards, of modular inversion (Spec.modInv) as explicit hypotheses; not proved for the Fp2 dictionary (G2): there the compressed round trip is covered by the correspondence only"],
+        "partial": [],
         "assumptions": ["the ZCash format of the bls12_381 curve crate is not modelled (ark_test_curves does not override serialization)"],
     },
     "C10": {
@@ -77,11 +79,12 @@ PROPS = {
         "assumptions": ["group with NEGATION_IS_CHEAP = false is a harness wrapper (no shipped group has it)", "big-integer scalars >= 2^(c*ceil(bits/c)) are outside the property's scalar domain (verdict note)"],
     },
     "C13": {
-        "modules": ["Ark.Props.C13"],
+        "modules": ["Ark.Props.C13", "Ark.Props.C13b"],
+        "gen_from": "C16",
         "rule": "one op line per expander / hash_to_field / map_to_curve / hash call; distinct = distinct op line; non-trivial = non-empty message or u outside {0,1}",
         "exhaustive": ["all u of the toy SWU (F_127, F_49), WB and Elligator (F_101, F_127) configurations"],
         "partial": [],
-        "partial": ["image of the isogeny lies on the target curve: proved from an explicit polynomial identity hypothesis (IsoIdentity); that the shipped BLS12-381 isogeny coefficients satisfy it is checked on the generator only (C16) and by the correspondence on all exceptional and random inputs", "final hash lies in the prime-order subgroup: belongs to cofactor clearing (C12); here judged by the driver computing r*P on every hash line"],
+        "partial": ["final hash lies in the prime-order subgroup: belongs to cofactor clearing (C12); here judged by the driver computing r*P on every hash line", "primality of the BLS12 base-field moduli is a Fact hypothesis of the isogeny theorems (C13b)"],
         "assumptions": ["supported suites = BLS12-381 G1/G2 with SHA-256 (L = 64); DefaultFieldHasher with L != 64 pads Z_pad with L bytes (note, outside the supported suites)", "theorems assume a sound square-root/parity dictionary (FieldXSound, ParitySound) and a finite field (product of two non-squares is a square)"],
     },
     "C16": {
